@@ -53,50 +53,120 @@ def load_known():
     return out
 
 
-def run_impl(script, build_dir, cases, jobs=6, timeout=600, extra_env=None):
+def run_impl(script, build_dir, cases, jobs=6, timeout=3600, extra_env=None, stall=60):
     """Runs harness/impl/<script> on `cases` against build_dir; returns list of outputs aligned
-    with cases.  A crashed or hung worker yields {"HarnessCrash": ...} for its cases."""
+    with cases.  The workers write one result line per finished case; a worker that makes no progress for
+    `stall` seconds (the implementation spins inside compiled code, where the per-case SIGALRM of the runner
+    is never delivered) is killed, the case it was on is reported as {"Hang": [...]} and a new worker is
+    started for the cases after it.  A worker that dies reports {"HarnessCrash": ...} for the case it was on."""
     if not cases:
         return []
     n = max(1, min(jobs, (len(cases) + 19) // 20))
-    chunks = [cases[i::n] for i in range(n)]
     d = tempfile.mkdtemp(prefix="asynq-verif-impl-")
     env = B.impl_env(build_dir)
     if extra_env:
         env.update(extra_env)
-    procs = []
+
+    class W:
+        pass
+
+    def spawn(w):
+        w.gen += 1
+        w.inp = os.path.join(d, "in%d_%d.json" % (w.i, w.gen))
+        w.outp = os.path.join(d, "out%d_%d.json" % (w.i, w.gen))
+        json.dump(w.todo, open(w.inp, "w"))
+        w.err = open(os.path.join(d, "err%d_%d" % (w.i, w.gen)), "w+")
+        w.p = subprocess.Popen([B.PY, os.path.join(IMPLDIR, script), w.inp, w.outp], env=env, cwd=d,
+                               stdout=subprocess.DEVNULL, stderr=w.err)
+        w.seen, w.t_prog = 0, time.time()
+
+    def partial(w):
+        try:
+            return [json.loads(l) for l in open(w.outp + ".partial") if l.endswith("\n")]
+        except Exception:
+            return []
+
+    def note(w):
+        try:
+            return open(w.outp + ".note").read()[:400]
+        except Exception:
+            return ""
+
+    ws = []
+    t0 = time.time()
     try:
-        for i, ch in enumerate(chunks):
-            inp = os.path.join(d, "in%d.json" % i)
-            outp = os.path.join(d, "out%d.json" % i)
-            json.dump(ch, open(inp, "w"))
-            p = subprocess.Popen([B.PY, os.path.join(IMPLDIR, script), inp, outp], env=env, cwd=d,
-                                 stdout=subprocess.PIPE, stderr=subprocess.PIPE, text=True)
-            procs.append((p, outp, len(ch)))
-        outs = []
-        for p, outp, k in procs:
-            try:
-                so, se = p.communicate(timeout=timeout)
-                res = json.load(open(outp))
-                assert len(res) == k
-            except subprocess.TimeoutExpired:
-                p.kill()
-                res = [{"HarnessCrash": [{"s": "worker timed out (hang?)"}]}] * k
-            except Exception:
-                res = None
-                try:  # partial results are written incrementally as json lines
-                    res = [json.loads(l) for l in open(outp + ".partial")]
-                except Exception:
-                    res = []
-                msg = (se or "")[-1500:] if "se" in dir() else ""
-                res = res + [{"HarnessCrash": [{"s": "worker died: rc=%s %s" % (p.returncode, msg)}]}] * (k - len(res))
-            outs.append(res)
+        for i in range(n):
+            w = W()
+            w.i, w.gen, w.todo, w.done, w.respawns = i, 0, cases[i::n], [], 0
+            spawn(w)
+            ws.append(w)
+        live = list(ws)
+        while live:
+            time.sleep(0.05)
+            for w in list(live):
+                rc = w.p.poll()
+                if rc is not None:
+                    res = None
+                    try:
+                        res = json.load(open(w.outp))
+                        assert len(res) == len(w.todo)
+                    except Exception:
+                        res = None
+                    if res is not None:
+                        w.done += res
+                        live.remove(w)
+                        continue
+                    got = partial(w)[:len(w.todo)]
+                    w.err.seek(0)
+                    msg = w.err.read()[-1500:]
+                    w.done += got
+                    rest = w.todo[len(got):]
+                    if rest:
+                        w.done.append({"HarnessCrash": [{"s": "worker died: rc=%s %s" % (rc, msg)}]})
+                        rest = rest[1:]
+                    w.respawns += 1
+                    if rest and w.respawns <= 8:
+                        w.todo = rest
+                        spawn(w)
+                    else:
+                        w.done += [{"HarnessCrash": [{"s": "worker died repeatedly"}]}] * len(rest)
+                        live.remove(w)
+                    continue
+                try:
+                    sz = os.path.getsize(w.outp + ".partial")
+                except OSError:
+                    sz = 0
+                if sz != w.seen:
+                    w.seen, w.t_prog = sz, time.time()
+                elif time.time() - w.t_prog > stall or time.time() - t0 > timeout:
+                    w.p.kill()
+                    w.p.wait()
+                    got = partial(w)[:len(w.todo)]
+                    w.done += got
+                    rest = w.todo[len(got):]
+                    if rest:
+                        w.done.append({"Hang": [{"s": "no progress for %ds (killed by the driver)" % stall, "note": note(w)}]})
+                        rest = rest[1:]
+                    w.respawns += 1
+                    if rest and w.respawns <= 8 and time.time() - t0 <= timeout:
+                        w.todo = rest
+                        spawn(w)
+                    else:
+                        w.done += [{"HarnessCrash": [{"s": "worker hung repeatedly / overall time limit"}]}] * len(rest)
+                        live.remove(w)
         merged = [None] * len(cases)
-        for i, res in enumerate(outs):
-            for j, r in enumerate(res):
-                merged[i + j * n] = r
+        for w in ws:
+            for j, r in enumerate(w.done):
+                merged[w.i + j * n] = r
         return merged
     finally:
+        for w in ws:
+            try:
+                if w.p.poll() is None:
+                    w.p.kill()
+                w.err.close()
+            except Exception:
+                pass
         import shutil
         shutil.rmtree(d, ignore_errors=True)
 
@@ -195,8 +265,15 @@ def _main(P, tier, seed):
                 if isinstance(io, dict) and "HarnessCrash" in io:
                     harness_crashes.append((c, k, io))
                     continue
-                for f in P.monitors(c, io, k):
+                fs_c = P.monitors(c, io, k)
+                for f in fs_c:
                     findings.append(dict(case=c, build=k, out=io, **f))
+                if isinstance(io, dict) and "Hang" in io:
+                    if not fs_c:   # the models are total (proved): an implementation that does not return has left them
+                        diffs.append(dict(case=c, build=k, out=io, model=None,
+                                          msg="the implementation did not return within the watchdog limit on this input; "
+                                              "the model returns on every input"))
+                    continue
                 if model_outs is not None and (c["idx"], k) in model_by:
                     d = cmp_fn(c, model_by[(c["idx"], k)], io)
                     if d:
